@@ -2,6 +2,7 @@
  *
  * Environment:
  *   RDSHIM_PATH   absolute path the fault applies to (exact match after stripping a trailing '/')
+ *   RDSHIM_MATCH  exact (default) | prefix : with prefix every path below the directory RDSHIM_PATH matches
  *   RDSHIM_CALL   stat | open | read | opendir | readdir | readlink | fiemap
  *   RDSHIM_ERRNO  errno value to fail with (13 EACCES, 5 EIO, 2 ENOENT)
  *   RDSHIM_NTH    fail only the n-th matching call (1-based, process-wide counter); 0 = every matching call
@@ -53,7 +54,11 @@ static int path_matches(const char *p) {
     if (!g_path || !p) return 0;
     size_t n = strlen(p);
     while (n > 1 && p[n - 1] == '/') n--;
-    return strlen(g_path) == n && strncmp(g_path, p, n) == 0;
+    if (strlen(g_path) == n && strncmp(g_path, p, n) == 0) return 1;
+    /* RDSHIM_MATCH=prefix: every path below the directory RDSHIM_PATH matches */
+    const char *m = getenv("RDSHIM_MATCH");
+    size_t gl = strlen(g_path);
+    return m && strcmp(m, "prefix") == 0 && n > gl && strncmp(g_path, p, gl) == 0 && p[gl] == '/';
 }
 
 static void logline(const char *call, int n, int fail, const char *path) {
